@@ -312,7 +312,16 @@ def extract():
         raise Unsupported("shapeAdjust.__init__ wiring")
     dinit = [norm(n) for n in ast.walk(find_method(DET, "DeterministicOde", "__init__")) if isinstance(n, ast.Assign)]
     if "self._SAUtil=ode_utils.shapeAdjust(nS,nP)" not in dinit:
-        raise Unsupported("DeterministicOde.__init__: _SAUtil wiring")
+        # since 9241b05 the helper is a property built from the current sizes: `return ode_utils.shapeAdjust(nS, nP)`
+        try:
+            prop = find_method(DET, "DeterministicOde", "_SAUtil")
+            body = [n for n in stmts(prop) if not isinstance(n, ast.Expr)]
+            ok = (len(body) == 1 and isinstance(body[0], ast.Return) and norm(body[0].value) == "ode_utils.shapeAdjust(nS,nP)"
+                  and any(isinstance(dec, ast.Name) and dec.id == "property" for dec in prop.decorator_list))
+        except Unsupported:
+            ok = False
+        if not ok:
+            raise Unsupported("DeterministicOde: _SAUtil wiring")
 
     # ---- sensitivity
     b = stmts(find_method(DET, "DeterministicOde", "sensitivity"))
